@@ -55,8 +55,8 @@ ASSUMPTIONS = [
     'hang verdicts (a call or iterator that never delivers) rest on a 60 s bound for work of < 2 s and are re-run alone before being reported',
 ]
 JOBS = 14
-SPEC_TIMEOUT = 420
-CONFIRM_ALONE = ('call_never_returned', 'call_never_resolved', 'iterator_stuck', 'consumer_stuck')
+SPEC_TIMEOUT = 700
+CONFIRM_ALONE = ('call_never_returned', 'call_never_resolved', 'iterator_stuck')
 FLOORS = {
     'quick': {'real:calls': 120, 'real:scenarios': 8, 'real:calls_out_of_order': 12, 'real:multiworker_calls': 40,
               'real:raising_calls': 20, 'real:partial_last_chunk': 15, 'real:empty_input': 4, 'real:nolen_iterable': 10,
@@ -83,15 +83,17 @@ def plan(tier, seed):
     specs = []
     # PERM exhaustive: every kind, m = 0..6 (m = 6 sharded by first element)
     for kind in PERM_KINDS:
-        specs.append({'lane': 'perm', 'mode': 'exh', 'kind': kind, 'ms': [0, 1, 2, 3, 4, 5], 'seed': seed})
+        specs.append({'lane': 'perm', 'mode': 'exh', 'kind': kind, 'ms': [0, 1, 2, 3, 4, 5], 'seed': seed, 'timeout': 300})
         for sh in range(3):
-            specs.append({'lane': 'perm', 'mode': 'exh', 'kind': kind, 'ms': [6], 'shard': [sh, 3], 'seed': seed})
+            specs.append({'lane': 'perm', 'mode': 'exh', 'kind': kind, 'ms': [6], 'shard': [sh, 3], 'seed': seed,
+                          'timeout': 300})
     n_rand = 4 if tier == 'quick' else 16
     for i in range(n_rand):
-        specs.append({'lane': 'perm', 'mode': 'rand', 'seed': seed * 1000 + i,
+        specs.append({'lane': 'perm', 'mode': 'rand', 'seed': seed * 1000 + i, 'timeout': 300,
                       'cases': 300 if tier == 'quick' else 1200, 'maxn': 40 if tier == 'quick' else 400})
-    n_real = 14 if tier == 'quick' else 80
-    real = [{'lane': 'real', 'seed': seed * 1000 + i, 'idx': i, 'timeout': 400} for i in range(n_real)]
+    n_real = 7 if tier == 'quick' else 40        # two pools (scenarios) per spec, one after the other
+    real = [{'lane': 'real', 'seeds': [seed * 1000 + 2 * i, seed * 1000 + 2 * i + 1], 'idxs': [2 * i, 2 * i + 1],
+             'timeout': 700} for i in range(n_real)]
     # REAL scenarios first: they are the long ones
     return real + specs
 
@@ -169,10 +171,11 @@ def judge(rec, c, out, lane, extra=None):
 
     hostile = c.get('exck') == 'stop' and raising
     if out[0] == 'unresolved':
-        fail('call_never_resolved', attrs)
+        # PERM: every part was delivered and get(0) still times out - a logical verdict, no clock involved
+        fail('job_never_resolves' if lane == 'perm' else 'call_never_resolved', attrs)
         return False
     if out[0] == 'hung':
-        fail('call_never_returned', attrs)
+        fail('call_never_returned', attrs, waited_s=out[1:])
         return False
     rec.count('%s:items_checked' % lane, len(ref))
 
@@ -198,6 +201,10 @@ def judge(rec, c, out, lane, extra=None):
 
     # ---- iterators -------------------------------------------------------
     items, end = out[1], out[2]
+    if end == 'incomplete':
+        # PERM, polling consumer: everything was delivered and announced, next(0) finds neither item nor end
+        fail('iterator_never_completes', attrs, yielded=len(items), expected=len(ref))
+        return False
     if end == 'stuck':
         fail('iterator_stuck', attrs, yielded=len(items), expected=len(ref))
         return False
@@ -392,6 +399,15 @@ def gen_scenario(seed, idx, tier):
             rng.shuffle(order)
             p['batches'].append({'mode': 'conc', 'calls': calls, 'collect': order})
         cid += k
+    # regression guard: a function raising StopIteration must fail the call, not shorten a chunk
+    api = ['map', 'starmap_async', 'imap', 'starmap', 'map_async', 'imap_unordered'][idx % 6]
+    n = rng.choice([5, 7, 9])
+    c = {'cid': 'c%d' % cid, 'api': api, 'nproc': nproc, 'iseed': rng.randrange(10 ** 6), 'types': 'int',
+         'callable_obj': False, 'n': n, 'chunk': rng.choice([2, 3]), 'form': 'list', 'fkind': 'echo',
+         'bad': [rng.randrange(n)], 'exck': 'stop', 'lat': None, 'style': 'timeout'}
+    if base_api(api) == 'starmap':
+        c['arity'] = 2
+    p['batches'].insert(rng.randrange(len(p['batches']) + 1), {'mode': 'seq', 'calls': [c]})
     return p
 
 
@@ -418,7 +434,7 @@ def run_real(spec, rec):
     tier = spec.get('tier', 'quick')
     p = gen_scenario(spec['seed'], spec.get('idx', 0), tier)
     ncalls = sum(len(b['calls']) for b in p['batches'])
-    r = real.run_scenario('vmon.c02_helpers', 'sc_calls', p, timeout=300, tag='c02')
+    r = real.run_scenario('vmon.c02_helpers', 'sc_calls', p, timeout=320, tag='c02')
     obs, ev = r['obs'], r['events']
     if r['status'] == 'scenario_error':
         raise RuntimeError('scenario error: ' + obs.get('scenario_exception', r['stderr'][-2000:]))
@@ -489,9 +505,11 @@ def run_real(spec, rec):
     rec.count('real:distinct_completion_orders', len(orders))
     if obs.get('teardown_ok') is False:
         rec.anomaly('teardown_slow', nproc=p['nproc'])
-    if r['status'] == 'ok' and len([1 for _m, c in calls if c['cid'] in results]) != ncalls:
+    if r['status'] == 'ok' and not obs.get('aborted_at') and \
+            len([1 for _m, c in calls if c['cid'] in results]) != ncalls:
         raise RuntimeError('host finished but %d of %d calls have no outcome' % (
             ncalls - len(results), ncalls))
+    return r['status'] == 'ok' and not obs.get('aborted_at')
 
 
 # --------------------------------------------------------------------------
@@ -500,6 +518,13 @@ def run_real(spec, rec):
 
 class _RS:
     R = 0
+
+
+STUCK_S = 25.0     # an in-memory consumer that does not come back within this is stuck
+
+
+class AbortSpec(Exception):
+    """enough clock-based stuck verdicts in this spec: stop, the rest would only burn the budget"""
 
 
 class Guard:
@@ -556,12 +581,15 @@ class Bench:
         pool.on_timeout_set = pool.on_timeout_cancel = None
         self.pool = pool
         self.sent = []
+        self.limit = 10 ** 9
+        self.overrun = False
         self.on_put = None
         self.outq = queue.Queue()
         self.th = bp.TaskHandler(pool._taskqueue, self._put, self.outq, [], pool._cache)
         self.rh = bp.ResultHandler(self.outq, None, pool._cache, None, None, None, _RS(), None, None,
                                    on_ready_counters=None)
         self.guard = Guard()
+        self.stuck = 0            # consumers that never came back (clock-based verdicts)
         from billiard.reduction import ForkingPickler
         self._fp = ForkingPickler
 
@@ -573,6 +601,10 @@ class Bench:
         if task is None:
             return
         self.sent.append(task)
+        if len(self.sent) > self.limit:
+            # a task stream that does not end: stop the real task handler the way a broken pipe would
+            self.overrun = True
+            raise IOError('harness: task stream overrun')
         if self.on_put is not None:
             self.on_put(task)
 
@@ -683,8 +715,9 @@ class PJob:
                                    for k, v in self.cbs if k == 'cb']])
             return out
         if self.consumer == 'thread':
-            self.thread.join(60)
+            self.thread.join(STUCK_S)
             if self.thread.is_alive():
+                self.b.stuck += 1
                 return ['items', list(self.yielded), 'stuck']
             return ['items', self.yielded, self.end]
         if self.end:
@@ -699,10 +732,11 @@ class PJob:
                         return ['items', self.yielded, 'restarted']
                     return ['items', self.yielded, 'stop']
                 if r == 'empty':
-                    return ['items', self.yielded, 'stuck']
+                    return ['items', self.yielded, 'incomplete']
             return ['items', self.yielded, 'overrun']
-        st, res = self.b.guard.run(lambda: H.drain_iterator(self.h, 'for', self.c['n'] + 3))
+        st, res = self.b.guard.run(lambda: H.drain_iterator(self.h, 'for', self.c['n'] + 3), STUCK_S)
         if st == 'stuck':
+            self.b.stuck += 1
             return ['items', [], 'stuck']
         if st == 'err':
             raise RuntimeError('drain failed: ' + res)
@@ -723,6 +757,7 @@ def run_perm_case(bench, rec, c, order, L, consumer, ack_early=False, tag=''):
     attrs = {'lane': 'perm', 'api': base_api(c['api']), 'chunked': eff_chunk(c) > 1}
     m = expected_parts(c)
     bench.sent = []
+    bench.limit, bench.overrun = c['n'] + 8, False
     events = []
     try:
         pj = PJob(bench, c, consumer)
@@ -780,6 +815,10 @@ def run_perm_case(bench, rec, c, order, L, consumer, ack_early=False, tag=''):
         for i2 in sorted(pj.tasks):
             if i2 not in blobs:
                 deliver(i2)
+        if bench.overrun:
+            rec.violation('task_stream_never_ends', attrs, call=c, tasks_streamed=len(bench.sent), inputs=c['n'])
+            rec.case()
+            return
         out = pj.finish(rec)
     except Exception:                            # noqa
         rec.violation('parent_side_code_raised', attrs, call=c, order=order, len_after=L, events=events,
@@ -787,6 +826,10 @@ def run_perm_case(bench, rec, c, order, L, consumer, ack_early=False, tag=''):
         return
     finally:
         bench.on_put = None
+    if bench.stuck >= 2:
+        judge(rec, c, out, 'perm', extra={'completion_order': order, 'length_announced_after': L,
+                                          'consumer': consumer, 'events': events})
+        raise AbortSpec()
     extra = {'completion_order': order, 'length_announced_after': L, 'consumer': consumer,
              'events': events, 'parts_sent': len(pj.tasks), 'parts_expected': m}
     ok = judge(rec, c, out, 'perm', extra=extra)
@@ -971,6 +1014,7 @@ def run_multi_case(bench, rec, rng, nproc, maxn):
             c['bad'] = [b for b in c['bad'] if b < c['n']]
         calls.append(c)
     bench.sent = []
+    bench.limit, bench.overrun = sum(c['n'] for c in calls) + 8, False
     pjs = []
     for c in calls:
         pollable = base_api(c['api']).startswith('imap') and eff_chunk(c) == 1
@@ -1005,6 +1049,10 @@ def run_multi_case(bench, rec, rng, nproc, maxn):
         bench.stream()
         for pj in pjs:
             pj.poll()
+        if bench.overrun:
+            rec.violation('task_stream_never_ends', attrs, calls=calls, tasks_streamed=len(bench.sent))
+            rec.case()
+            return
         while pend:
             complete(*pend.pop(rng.randrange(len(pend))))
         outs = [pj.finish(rec) for pj in pjs]
@@ -1019,6 +1067,8 @@ def run_multi_case(bench, rec, rng, nproc, maxn):
     for pj, out in zip(pjs, outs):
         judge(rec, pj.c, out, 'perm', extra={'multi_job': True, 'jobs': [c['api'] for c in calls],
                                              'completions': order_log[:80]})
+    if bench.stuck >= 2:
+        raise AbortSpec()
     rec.case()
     rec.count('perm:cases')
     rec.count('perm:multi_job_cases')
@@ -1031,9 +1081,16 @@ def run_multi_case(bench, rec, rng, nproc, maxn):
 def run_spec(spec, rec):
     import faulthandler
     faulthandler.dump_traceback_later(SPEC_TIMEOUT - 30, exit=False)
-    if spec['lane'] == 'real':
-        run_real(spec, rec)
-    elif spec['mode'] == 'exh':
-        run_perm_exh(spec, rec)
-    else:
-        run_perm_rand(spec, rec)
+    try:
+        if spec['lane'] == 'real':
+            for seed, idx in zip(spec['seeds'], spec['idxs']):
+                if not run_real(dict(spec, seed=seed, idx=idx), rec):
+                    rec.note('REAL spec stopped after a hung / dead host')
+                    break
+                rec.flush()
+        elif spec['mode'] == 'exh':
+            run_perm_exh(spec, rec)
+        else:
+            run_perm_rand(spec, rec)
+    except AbortSpec:
+        rec.note('PERM spec stopped after two stuck consumers')
